@@ -22,6 +22,7 @@ from chameleon.namespaces import XML_NS
 from chameleon.namespaces import XMLNS_NS
 from chameleon.parser import unpack_attributes
 from chameleon.program import ElementProgram
+from chameleon.tokenize import Token
 from chameleon.utils import ImportableMarker
 from chameleon.utils import decode_htmlentities
 
@@ -699,7 +700,12 @@ class MacroProgram(ElementProgram):
 
     def visit_processing_instruction(self, node):
         if node['name'] != 'python':
-            text = '<?' + node['name'] + node['text'] + '?>'
+            # Put the instruction together again as a token that knows
+            # its place in the source, such that an expression in it is
+            # reported with its position.
+            name = node['name']
+            start = Token('<?', name.pos - 2, name.source, name.filename)
+            text = start + name + node['text'] + '?>'
             return self.visit_text(text)
 
         return nodes.CodeBlock(node['text'])
